@@ -168,8 +168,12 @@ def projects(draw, max_steps=9, allow_always=True, allow_clash=False):
             step['extra'] = pick([r for r in file_refs('bdop')
                                   if r[0] == 'out'], 0, 3)
         elif kind == 'command':
-            step['extra'] = pick([r for r in file_refs('bdp')
-                                  if r[0] == 'out'], 0, 2)
+            # the dependencies may be handed over as files= (and named on
+            # the command line through command.input); only files qualify
+            step['via_files'] = draw(st.booleans())
+            step['extra'] = pick(
+                [r for r in file_refs('bd' if step['via_files'] else 'bdp')
+                 if r[0] == 'out'], 0, 2)
         if kind in ('obj', 'exe', 'slib', 'shlib', 'step') and \
                 draw(st.integers(0, 2)) == 0:
             step['extra'] = pick(file_refs('hd'), 0, 2)
@@ -204,7 +208,9 @@ def projects(draw, max_steps=9, allow_always=True, allow_clash=False):
         # an invalid script: a named target declared after a step that
         # already produces a file of that name (must be rejected)
         model['clash'] = [draw(st.sampled_from(files_)),
-                          draw(st.sampled_from(['alias', 'command']))]
+                          draw(st.sampled_from(['alias', 'command',
+                                                'step-first',
+                                                'step-second']))]
     return model
 
 
@@ -488,7 +494,10 @@ def script(model):
         v = 'v{}'.format(st_['id'])
         kind = st_['kind']
         extra = ''
-        if st_['extra'] and kind not in ('alias',):
+        if st_['extra'] and kind == 'command' and st_.get('via_files'):
+            extra = ', files=[{}]'.format(', '.join(
+                _ref_expr(model, r) for r in st_['extra']))
+        elif st_['extra'] and kind not in ('alias',):
             extra = ', extra_deps=[{}]'.format(', '.join(
                 _ref_expr(model, r) for r in st_['extra']))
         files = '[{}]'.format(', '.join(_ref_expr(model, r)
@@ -560,8 +569,10 @@ def script(model):
         elif kind == 'command':
             if st_.get('env'):
                 extra += ', environment={!r}'.format(st_['env'])
-            L.append('{} = command({!r}, cmd=["rec", "CMD:{}"]{})'.format(
-                v, st_['name'], st_['name'], extra))
+            tail = ', command.input' if st_['extra'] and \
+                st_.get('via_files') else ''
+            L.append('{} = command({!r}, cmd=["rec", "CMD:{}"{}]{})'.format(
+                v, st_['name'], st_['name'], tail, extra))
     if decor.get('yacc'):
         # two grammars: one with an explicitly named single output, one with
         # the default source + header pair, in either order
@@ -573,6 +584,13 @@ def script(model):
         st_ = step_by_id(model)[model['clash'][0]]
         if model['clash'][1] == 'alias':
             L.append('alias({!r}, [])'.format(out_name(model, st_)))
+        elif model['clash'][1].startswith('step-'):
+            # a second file-producing step; the contested name is its first
+            # or its second output
+            outs = ['vf_uncontested.out', out_name(model, st_)]
+            if model['clash'][1] == 'step-first':
+                outs.reverse()
+            L.append('build_step({!r}, cmd=["true"])'.format(outs))
         else:
             L.append('command({!r}, cmd=["true"])'.format(
                 out_name(model, st_)))
